@@ -176,3 +176,28 @@ fn c02_unknown_text_rejected() {
     kani::cover!(true, "end");
     std::mem::forget(v);
 }
+
+/// The token brings its own key in a `jwk` header member and is signed with it: the verifier must
+/// still use the resolver's key (and therefore reject), and must ask the resolver.
+#[kani::proof]
+#[kani::unwind(4)]
+#[kani::stub(alloc::fmt::format, fmt_stub)]
+fn c02_header_jwk_is_not_a_trust_anchor() {
+    let mut raw = JMap::new();
+    put(&mut raw, "kty", jstr("EC"));
+    put(&mut raw, "x", jstr("z"));
+    let mut h = Header::new(Algorithm::ES256);
+    h.jwk = Some(jsonwebtoken::jwk::Jwk { raw });
+    // signed by the key in the header, not by the issuer
+    jm::register(JWT, h, vouched_claims("vv".to_string()), jsonwebtoken::bytes_id(b"z"));
+    jm::set_now(1000);
+    jm::expect(0, false);
+    let mut v = mk_verifier(unverified_payload(), Fam::Ec);
+    let ok = finish(v.verify_sd_jwt(Some("ES256".to_string())));
+    assert!(!ok, "C02.g1 token signed with the key from its own jwk header accepted");
+    unsafe { assert!(RESOLVER_CALLS == 1, "C02.g2 the resolver must be asked for the key"); }
+    let calls = jm::verify_calls();
+    assert!(calls.len() == 1 && calls[0].key_id == RESOLVER_KEY, "C02.g3 signature must be checked under the resolver's key");
+    kani::cover!(true, "end");
+    std::mem::forget(v);
+}
